@@ -697,7 +697,10 @@ impl Inner {
             }
         };
 
-        if stream.is_pending_open {
+        // A stream waiting to be opened is still idle for the peer, unless it is a
+        // promised stream: its PUSH_PROMISE has been sent and only the response is
+        // waiting for a concurrency slot, so the peer may reset it.
+        if stream.is_pending_open && !self.counts.peer().is_server() {
             proto_err!(conn: "recv_reset: received frame on idle stream {:?}", id);
             return Err(Error::library_go_away(Reason::PROTOCOL_ERROR));
         }
@@ -734,7 +737,8 @@ impl Inner {
             // The remote may send window updates for streams that the local now
             // considers closed. It's ok...
             if let Some(mut stream) = self.store.find_mut(&id) {
-                if stream.is_pending_open {
+                // (a promised stream whose response waits for a slot is reserved, not idle)
+                if stream.is_pending_open && !self.counts.peer().is_server() {
                     proto_err!(conn: "recv_window_update: received frame on idle stream {:?}", id);
                     return Err(Error::library_go_away(Reason::PROTOCOL_ERROR));
                 }
